@@ -197,7 +197,7 @@ EXPLANATION = (
     "masks and units included), every np.save target directly under the configured location, directory empty after "
     "run() returned. Times and payloads are concrete here; the solver's part is the complete case split over limits."
 )
-ASSUMPTIONS = ["payloads are 2x3 float64 arrays (48 bytes); daily publications; consumer step 36 h (and 24 h in thorough)"]
+ASSUMPTIONS = ["payloads are 2x3 float64 arrays (48 bytes); daily publications; consumer step 36 h (direct pulls from the output also 32 h; 24, 60 and 8 h in thorough)"]
 
 
 def families(tier):
@@ -207,6 +207,10 @@ def families(tier):
     for kind in kinds:
         for masked in (False, True):
             variants = [(36, 4)] if q else [(36, 5), (24, 5), (60, 6)]
+            if kind == "output":
+                # direct pulls strictly between two publications: nearer the older one (32 h), nearer the newer one
+                # (64 h), on a publication (96 h); 8 h: three pulls per publication interval
+                variants = variants + ([(32, 5)] if q else [(32, 6), (8, 4)])
             for cstep_h, npub in variants:
                 fams.append(dict(
                     name=f"spill:{kind}:{'masked' if masked else 'plain'}:{cstep_h}h:{npub}",
